@@ -17,7 +17,7 @@ import numpy as np  # noqa: E402
 from props.dgmgen import materialize  # noqa: E402
 import persim  # noqa: E402,F401
 
-bott = sys.modules["persim.bottleneck"].bottleneck
+import importlib  # noqa: E402
 
 
 def main():
@@ -30,6 +30,12 @@ def main():
         if not line:
             continue
         q = json.loads(line)
+        if q.get("reset"):
+            importlib.reload(sys.modules["persim.bottleneck"])
+            out.write(json.dumps({"reset": True, "err": None}) + "\n")
+            out.flush()
+            continue
+        bott = sys.modules["persim.bottleneck"].bottleneck
         a = materialize(q["a"], q.get("ra", "f64"))
         b = materialize(q["b"], q.get("rb", "f64"))
         res = {"d": None, "m": None, "warn": 0, "err": None}
